@@ -95,7 +95,7 @@ def build_segment(nodes, sf, rnd=None):
         if g in first:
             real.append(first[g].fork())
             continue
-        cls = symbolic.Stateful if sf[g - 1] else symbolic.Stateless
+        cls = symbolic.Source if n['szin'] == 0 else symbolic.Stateful if sf[g - 1] else symbolic.Stateless
         node = flow.Worker(cls.builder(str(g), n['szout']), n['szin'], n['szout'])
         first[g] = node
         real.append(node)
@@ -141,3 +141,52 @@ def compile_and_run(nodes, sf, pers, rnd=None, mutate=None):
     return {'nodes': nodes, 'sf': sf, 'pers': pers, 'values': [norm(v) for v in functors],
             'commits': [[norm(gen.dumped[s]) for s in c] for c in gen.commits], 'loads': gen.loads,
             'symbols': len(symbols)}, symbols
+
+
+class FileRelease:
+    def __init__(self, root):
+        self.root = root
+
+    def dump(self, state):
+        sid = uuid.uuid4()
+        with open(f'{self.root}/dump-{sid}', 'wb') as fh:
+            fh.write(state)
+        return sid
+
+    def put(self, tag):
+        import os
+        fd = os.open(f'{self.root}/commits', os.O_WRONLY | os.O_APPEND | os.O_CREAT, 0o644)
+        os.write(fd, (json.dumps([str(s) for s in tag.states]) + '\n').encode())
+        os.close(fd)
+        return FileGeneration(self.root)
+
+
+class FileGeneration:
+    """Picklable recording stand-in for asset.Generation: effects go to files under `root` (any process)."""
+
+    def __init__(self, root):
+        self.root = root
+        self.release = FileRelease(root)
+
+    @property
+    def tag(self):
+        from forml.io import asset
+        return asset.Tag()
+
+    def get(self, offset):
+        import os
+        fd = os.open(f'{self.root}/loads', os.O_WRONLY | os.O_APPEND | os.O_CREAT, 0o644)
+        os.write(fd, f'{offset + 1}\n'.encode())
+        os.close(fd)
+        return json.dumps(symbolic.term('loaded', offset + 1)).encode()
+
+    # ---- read back (driver side)
+    def effects(self):
+        import os
+        loads, commits = [], []
+        if os.path.exists(f'{self.root}/loads'):
+            loads = [int(l) for l in open(f'{self.root}/loads')]
+        if os.path.exists(f'{self.root}/commits'):
+            for line in open(f'{self.root}/commits'):
+                commits.append([norm(open(f'{self.root}/dump-{s}', 'rb').read()) for s in json.loads(line)])
+        return loads, commits
